@@ -93,7 +93,9 @@ func goalC02(st *world.State) string {
 	if s.Replicas != *set.Spec.Replicas || s.ReadyReplicas != *set.Spec.Replicas {
 		return fmt.Sprintf("status replicas=%d ready=%d, spec.replicas=%d", s.Replicas, s.ReadyReplicas, *set.Spec.Replicas)
 	}
-	if s.ObservedGeneration != set.Generation {
+	// a status that lags behind the spec is not final; one left ahead of it by another writer is outside what the
+	// property fixes (the counters above are what it names)
+	if s.ObservedGeneration < set.Generation {
 		return fmt.Sprintf("observedGeneration=%d generation=%d", s.ObservedGeneration, set.Generation)
 	}
 	return ""
@@ -238,7 +240,13 @@ func c02Grids() []gridOpts {
 	e.SelExpr, e.MaxSlots = true, 0
 	e.Strategies = []gen.Strategy{gen.RU(0), gen.RU(1)}
 	e.Histories = []history{histories[1], histories[5], histories[8]}
-	return []gridOpts{g, e}
+	// a status left by another writer (helper.Upgrade copies the built-in status into a fresh object; a restore from
+	// backup): observedGeneration ahead of generation, counters no census
+	a := g
+	a.StatusAhead, a.MaxSlots = true, 0
+	a.Strategies = []gen.Strategy{gen.RU(0)}
+	a.Histories = []history{histories[0], histories[1]}
+	return []gridOpts{g, e, a}
 }
 
 // c02WideGrids is the larger seed grid of the thorough tier (explored with one deviation).
